@@ -48,8 +48,8 @@ def world(env):
 EVENTS_Q = [("add", "p"), ("add", "q|p"), ("add", "u=1"), ("add", "!p"), ("add", "p&(r|!r)"), ("push", 1), ("push", 2), ("pop", 1),
             ("pop", 2), ("pop", 0), ("push", 0), ("reset",), ("solve",), ("value", "p"), ("value", "u+1"), ("model",), ("is_sat", "!q"),
             ("is_sat", "kk|p")]
-EVENTS_T = EVENTS_Q + [("add", "kk|p"), ("is_valid", "kk|p"), ("add", "h(p)"), ("add", "u<2"), ("value", "q&p"), ("is_valid", "q|p"), ("is_unsat", "!p")]
-EVENTS_SORT = [("add", "c1=c2"), ("add", "pa=pb"), ("add", "pc=pd"), ("add", "p&(c1=c2|!c1=c2)"), ("add", "M=lit"), ("push", 1), ("push", 2), ("pop", 1), ("pop", 2),
+EVENTS_T = EVENTS_Q + [("push", 3), ("pop", 3), ("add", "kk|p"), ("is_valid", "kk|p"), ("add", "h(p)"), ("add", "u<2"), ("value", "q&p"), ("is_valid", "q|p"), ("is_unsat", "!p")]
+EVENTS_SORT = [("add", "c1=c2"), ("add", "pa=pb"), ("add", "pc=pd"), ("add", "p&(c1=c2|!c1=c2)"), ("add", "M=lit"), ("push", 1), ("push", 2), ("push", 3), ("pop", 1), ("pop", 2), ("pop", 3),
                ("reset",), ("solve",), ("is_sat", "c1=c2"), ("is_sat", "pc=pd")]
 
 
